@@ -70,21 +70,82 @@ def _retarget(t, base, cont, unwind_to, dest, ret_local, span, tag):
 THEN = ("core::bool::then", "core::bool::then_some", "std::bool::then", "std::bool::then_some")
 
 
-def _closure_def(blocks, local):
-    """Def path of the closure the local `local` holds: it is assigned exactly once, by a closure aggregate."""
+def _closure_def(blocks, local, depth=6):
+    """Def path of the closure the local `local` holds (or refers to): it is assigned exactly once - by a closure
+    aggregate, or by a move/copy/borrow of a local for which the same holds."""
     found = None
+    n = 0
     for bl in blocks:
         for s in bl["stmts"]:
             if s["k"] == "assign" and s["p"]["l"] == local and not s["p"]["proj"]:
+                n += 1
                 rv = s["rv"]
-                if rv["k"] == "agg" and rv.get("ak") == "closure" and found is None:
+                if rv["k"] == "agg" and rv.get("ak") == "closure":
                     found = norm(rv["def"])
+                elif rv["k"] == "use" and rv["o"].get("k") in ("move", "copy") and not rv["o"]["p"]["proj"] and depth > 0:
+                    found = _closure_def(blocks, rv["o"]["p"]["l"], depth - 1)
+                elif rv["k"] == "ref" and not rv["p"]["proj"] and depth > 0:
+                    found = _closure_def(blocks, rv["p"]["l"], depth - 1)
                 else:
                     return None
         t = bl["term"]
         if t["k"] == "call" and t.get("dest") and t["dest"]["l"] == local and not t["dest"]["proj"]:
             return None
-    return found
+    return found if n == 1 else None
+
+
+FN_CALLS = ("std::ops::FnOnce::call_once", "std::ops::Fn::call", "std::ops::FnMut::call_mut")
+
+
+def _splice_closure_call(prog, body, raw, blocks, i, t, chain):
+    """A call, inside code spliced in from a helper, of a callable parameter that is - in this very function - a closure
+    built here (`helper(|x| ..)` with `fn helper(f: impl FnOnce(X))`): the closure's body is spliced in at the call.
+    Returns the closure's name, or None when the call is left alone."""
+    if len(t["args"]) != 2 or not isinstance(t.get("t"), int):
+        return None
+    recv, tup = t["args"]
+    if recv.get("k") not in ("move", "copy") or recv["p"]["proj"]:
+        return None
+    cdef = _closure_def(blocks, recv["p"]["l"])
+    C = prog._orig_bodies.get((body.crate, cdef, -1)) if cdef else None
+    ch = chain.get(i, ())
+    if C is None or C.kind != "Closure" or len(C.blocks) > MAX_BLOCKS or cdef in ch or len(ch) >= MAX_DEPTH + 1:
+        return None
+    nparams = C.arg_count - 1
+    if nparams and (tup.get("k") not in ("move", "copy") or tup["p"]["proj"]):
+        return None
+    span, dest, cont, unwind_to = t["span"], t["dest"], t["t"], t.get("unwind")
+    off = len(raw["locals"])
+    raw["locals"].extend(copy.deepcopy(C.locals))
+    short = cdef.rsplit("::", 1)[-1]
+    for e in C.raw["debug"]:
+        raw["debug"].append({"name": "%s@%s" % (e["name"], short), "p": _ren(e["p"], off)})
+    tag = cdef
+    env_ty = C.locals[1]["ty"]
+    recv_ty = recv["p"].get("ty") or ""
+    cl_place = copy.deepcopy(recv["p"])
+    if recv_ty.startswith("&") or not env_ty.startswith("&"):
+        env_rv = {"k": "use", "o": {"k": recv["k"], "p": cl_place}}       # reference handed on / closure by value
+    else:
+        env_rv = {"k": "ref", "mut": env_ty.startswith("&mut "), "p": cl_place}
+    st = blocks[i]["stmts"]
+    st.append({"k": "assign", "p": {"l": off + 1, "proj": [], "ty": env_ty}, "rv": env_rv, "span": span, "inl": tag})
+    for k_ in range(nparams):
+        ty_k = C.locals[k_ + 2]["ty"]
+        src = {"l": tup["p"]["l"], "proj": [{"k": "field", "i": k_, "name": None}], "ty": ty_k}
+        st.append({"k": "assign", "p": {"l": off + k_ + 2, "proj": [], "ty": ty_k}, "rv": {"k": "use", "o": {"k": "move", "p": src}}, "span": span, "inl": tag})
+    base = len(blocks)
+    blocks[i]["term"] = {"k": "goto", "t": base, "inl_call": tag, "span": span}
+    for j, cb in enumerate(C.blocks):
+        nb = {"cleanup": cb.get("cleanup", False), "stmts": [_ren(s_, off) for s_ in cb["stmts"]], "tspan": cb.get("tspan"), "inl": tag}
+        for s_ in nb["stmts"]:
+            s_.setdefault("inl", tag)
+        extra, nt = _retarget(_ren(cb["term"], off), base, cont, unwind_to, dest, off, span, tag)
+        nb["stmts"].extend(extra)
+        nb["term"] = nt
+        blocks.append(nb)
+        chain[base + j] = ch + (cdef,)
+    return cdef
 
 
 def _opt(variant, ops):
@@ -158,6 +219,15 @@ def _expand_then(prog, body, raw, blocks, i, t, name, chain):
     return cdef
 
 
+# callees that stay calls whatever they are named, because the rules model them as units by what they do: a function
+# that itself waits on a barrier is "a thread synchronisation step" of the sample recorder (rules/common.Recorder)
+UNIT_CALLS = ("std::sync::Barrier::wait",)
+
+
+def _unit_by_behaviour(C):
+    return any(bl["term"]["k"] == "call" and norm(bl["term"].get("resolved") or bl["term"].get("callee") or "") in UNIT_CALLS for bl in C.blocks)
+
+
 def inline_body(prog, body, keep):
     """A new Body with eligible local calls inlined, or `body` itself when nothing was inlined."""
     raw = None
@@ -186,9 +256,16 @@ def inline_body(prog, body, keep):
                         spliced_closures.append(got)
                     i += 1
                     continue
+            if norm(t.get("callee") or "") in FN_CALLS and blocks[i].get("inl") and not blocks[i].get("cleanup"):
+                got = _splice_closure_call(prog, body, raw, blocks, i, blocks[i]["term"], chain) if raw is not None else None
+                if got:
+                    inlined.append(got)
+                    spliced_closures.append(got)
+                    i += 1
+                    continue
             C = prog._orig_bodies.get((body.crate, name, -1)) if t.get("ck") in (None, body.crate.split(".")[0]) or True else None
             ok = C is not None and C.kind in ("Fn", "AssocFn") and C is not prog._orig_bodies.get((body.crate, body.path, -1)) and name not in ch and \
-                len(ch) < MAX_DEPTH and len(C.blocks) <= MAX_BLOCKS and len(t["args"]) == C.arg_count and not keep(name) and \
+                len(ch) < MAX_DEPTH and len(C.blocks) <= MAX_BLOCKS and len(t["args"]) == C.arg_count and not keep(name) and not _unit_by_behaviour(C) and \
                 "::tests::" not in name and "::benches::" not in name
             if ok:
                 if raw is None:
